@@ -883,6 +883,12 @@ class OneToOne(dict):
     def copy(self):
         return self.__class__(self)
 
+    def __reduce__(self):
+        # copy.copy / copy.deepcopy / pickle rebuild the pair from the items.
+        # (dict's default replays the items through __setitem__ on an
+        # object whose inv is missing or is the original's inverse.)
+        return (self.__class__, (dict(self),))
+
     def pop(self, key, default=_MISSING):
         if key in self:
             dict.__delitem__(self.inv, self[key])
